@@ -253,6 +253,10 @@ pub struct Cfg {
     /// letting the system settle in between
     pub burst: bool,
     pub queue: QueueKind,
+    /// the history may change the discard limit through UpdateSettings
+    pub set_limit: bool,
+    /// only dispatches (three keys) and completions: longer histories of plain job flow
+    pub flow_only: bool,
 }
 
 impl Cfg {
@@ -267,7 +271,7 @@ impl Cfg {
             (true, false) => "/lean",
             _ => "",
         };
-        format!("{:?}/{:?}/w{}/d{}{}{mode}{q}", self.routing, self.discard, self.workers, self.depth, if self.ttl { "/ttl" } else { "" }).replace(['(', ')'], "")
+        format!("{:?}/{:?}/w{}/d{}{}{mode}{q}{}{}", self.routing, self.discard, self.workers, self.depth, if self.ttl { "/ttl" } else { "" }, if self.set_limit { "/setlimit" } else { "" }, if self.flow_only { "/flow3keys" } else { "" }).replace(['(', ')'], "")
     }
     pub fn factory_queueing(&self) -> bool {
         matches!(self.routing, Routing::Sticky | Routing::Queuer)
@@ -345,6 +349,8 @@ pub enum Event {
     Resize(usize),
     Drain,
     Advance,
+    /// UpdateSettings: a new static discard limit (same mode)
+    SetLimit(usize),
     /// marker: the next event was issued right behind the previous one (no settling in between)
     NoSettle,
 }
@@ -362,6 +368,10 @@ pub struct Run {
     pub deaths: usize,
     /// (after event index, queue depth, number of active workers, available capacity, in-progress count)
     pub probes: Vec<(usize, Option<usize>, Option<usize>, Option<usize>, usize)>,
+    /// logical time of each probe (same order as `probes`)
+    pub probe_lc: Vec<u64>,
+    /// (history index from which it applies, discard limit in effect)
+    pub limits: Vec<(usize, Option<usize>)>,
     pub finale_rounds: usize,
 }
 
@@ -394,6 +404,7 @@ pub async fn run(cfg: Cfg) -> Run {
     let mut jobs: Vec<Submitted> = Vec::new();
     let mut history = Vec::new();
     let mut probes = Vec::new();
+    let mut probe_lc = Vec::new();
     let mut requested = cfg.workers;
     let mut last_resize = None;
     let mut drained = false;
@@ -427,6 +438,11 @@ pub async fn run(cfg: Cfg) -> Run {
         live_builds.iter().position(|(_, w)| *w == wid).map(|p| live[p].clone())
     };
     let mut no_wait = false;
+    let mut cur_limit = match cfg.discard {
+        Discard::None => None,
+        Discard::Newest(l) | Discard::Oldest(l) => Some(l),
+    };
+    let mut limits: Vec<(usize, Option<usize>)> = vec![(0, cur_limit)];
     for step in 0..cfg.depth {
         if f.get_status() >= ActorStatus::Stopping {
             break;
@@ -434,13 +450,16 @@ pub async fn run(cfg: Cfg) -> Run {
         // enabled events, simplest first
         let prog = world.in_progress();
         let mut en: Vec<Event> = vec![Event::Dispatch(0), Event::Dispatch(1)];
+        if cfg.flow_only {
+            en.push(Event::Dispatch(2));
+        }
         for w in 0..3usize {
             if !no_wait && prog.iter().any(|p| p.0 == w) {
                 en.push(Event::Complete(w));
             }
         }
         for w in 0..3usize {
-            if no_wait {
+            if no_wait || cfg.flow_only {
                 break; // right behind the previous event only requests to the factory are issued
             }
             if prog.iter().any(|p| p.0 == w) {
@@ -457,12 +476,19 @@ pub async fn run(cfg: Cfg) -> Run {
             }
         }
         for n in 1..=3usize {
-            if n != requested {
+            if n != requested && !cfg.flow_only {
                 en.push(Event::Resize(n));
             }
         }
-        if !drained {
+        if !drained && !cfg.flow_only {
             en.push(Event::Drain);
+        }
+        if cfg.set_limit {
+            for l in [0usize, 2] {
+                if Some(l) != cur_limit {
+                    en.push(Event::SetLimit(l));
+                }
+            }
         }
         if cfg.ttl {
             en.push(Event::Advance);
@@ -472,6 +498,7 @@ pub async fn run(cfg: Cfg) -> Run {
             h.split(',').nth(step).map(|t| match t {
                 "D0" => Event::Dispatch(0),
                 "D1" => Event::Dispatch(1),
+                "D2" => Event::Dispatch(2),
                 "C0" => Event::Complete(0),
                 "C1" => Event::Complete(1),
                 "KF0" => Event::KillAfterFinished(0),
@@ -482,6 +509,8 @@ pub async fn run(cfg: Cfg) -> Run {
                 "R1" => Event::Resize(1),
                 "R3" => Event::Resize(3),
                 "DR" => Event::Drain,
+                "L0" => Event::SetLimit(0),
+                "L2" => Event::SetLimit(2),
                 _ => Event::Advance,
             })
         });
@@ -540,7 +569,18 @@ pub async fn run(cfg: Cfg) -> Run {
             Event::Resize(n) => {
                 requested = n;
                 last_resize = Some(n);
-                let _ = f.cast(FactoryMessage::AdjustWorkerPool(n));
+                if n == 3 {
+                    // the other way to resize: a settings update carrying the worker count
+                    let _ = f.cast(FactoryMessage::UpdateSettings(UpdateSettingsRequest::builder().worker_count(n).build()));
+                } else {
+                    let _ = f.cast(FactoryMessage::AdjustWorkerPool(n));
+                }
+            }
+            Event::SetLimit(l) => {
+                cur_limit = Some(l);
+                limits.push((history.len() - 1, cur_limit));
+                let mode = if matches!(cfg.discard, Discard::Oldest(_)) { DiscardMode::Oldest } else { DiscardMode::Newest };
+                let _ = f.cast(FactoryMessage::UpdateSettings(UpdateSettingsRequest::builder().discard_settings(DiscardSettings::Static { limit: l, mode }).build()));
             }
             Event::Drain => {
                 drained = true;
@@ -549,6 +589,7 @@ pub async fn run(cfg: Cfg) -> Run {
             Event::Advance => vsched::sleep(Duration::from_millis(150)).await,
             Event::NoSettle => unreachable!(),
         }
+        let _ = &limits;
         // burst mode: the next request may follow at once (both sit in the factory's mailbox together)
         no_wait = cfg.burst
             && step + 1 < cfg.depth
@@ -573,6 +614,7 @@ pub async fn run(cfg: Cfg) -> Run {
             let a = ask(&f, 1).await;
             let c = ask(&f, 2).await;
             probes.push((history.len() - 1, q, a, c, world.in_progress().len()));
+            probe_lc.push(vsched::stamp());
         }
     }
     // finale: let every job in progress complete until nothing moves any more
@@ -615,6 +657,8 @@ pub async fn run(cfg: Cfg) -> Run {
         drained,
         deaths,
         probes,
+        probe_lc,
+        limits,
         finale_rounds: rounds,
     };
     f.stop(None);
@@ -686,7 +730,7 @@ pub fn plan(property: &'static str, tier: &str) -> Plan {
                 (true, true) => 6,
                 (true, false) => 5,
             };
-            cfgs.push((Cfg { routing: r, discard: *d, workers: 2, depth, ttl: false, lean: false, burst: false, queue: QueueKind::Default }, if raced || (thorough && main4) { 1 } else { 0 }));
+            cfgs.push((Cfg { routing: r, discard: *d, workers: 2, depth, ttl: false, lean: false, burst: false, queue: QueueKind::Default, set_limit: false, flow_only: false }, if raced || (thorough && main4) { 1 } else { 0 }));
         }
     }
     // deeper histories over the reduced alphabet (one kind of death, no kill), default schedule: multi-step
@@ -700,15 +744,15 @@ pub fn plan(property: &'static str, tier: &str) -> Plan {
                 continue;
             }
         }
-        cfgs.push((Cfg { routing: r, discard: Discard::None, workers: 2, depth: if thorough { 7 } else { 5 }, ttl: false, lean: true, burst: false, queue: QueueKind::Default }, 0));
+        cfgs.push((Cfg { routing: r, discard: Discard::None, workers: 2, depth: if thorough { 7 } else { 5 }, ttl: false, lean: true, burst: false, queue: QueueKind::Default, set_limit: false, flow_only: false }, 0));
     }
     // bursts: requests that sit in the factory's mailbox together (a resize right behind a resize, a
     // dispatch right behind a drain request, ...), so the factory handles the second before the workers
     // reacted to the first
     for r in [Routing::Queuer, Routing::KeyPersistent, Routing::Sticky, Routing::RoundRobin] {
-        cfgs.push((Cfg { routing: r, discard: Discard::None, workers: 2, depth: if thorough { 5 } else { 4 }, ttl: false, lean: true, burst: true, queue: QueueKind::Default }, 0));
+        cfgs.push((Cfg { routing: r, discard: Discard::None, workers: 2, depth: if thorough { 5 } else { 4 }, ttl: false, lean: true, burst: true, queue: QueueKind::Default, set_limit: false, flow_only: false }, 0));
         if property == "C15" {
-            cfgs.push((Cfg { routing: r, discard: Discard::Newest(1), workers: 2, depth: if thorough { 4 } else { 3 }, ttl: false, lean: true, burst: true, queue: QueueKind::Default }, 0));
+            cfgs.push((Cfg { routing: r, discard: Discard::Newest(1), workers: 2, depth: if thorough { 4 } else { 3 }, ttl: false, lean: true, burst: true, queue: QueueKind::Default, set_limit: false, flow_only: false }, 0));
         }
     }
     // the priority queue (factory-queued routing only: worker queues are plain FIFOs): urgent key b
@@ -718,12 +762,27 @@ pub fn plan(property: &'static str, tier: &str) -> Plan {
             if property != "C15" && d != Discard::None && !thorough {
                 continue;
             }
-            cfgs.push((Cfg { routing: r, discard: d, workers: 1, depth: if thorough { 6 } else { 4 }, ttl: false, lean: true, burst: false, queue: q }, 0));
+            cfgs.push((Cfg { routing: r, discard: d, workers: 1, depth: if thorough { 6 } else { 4 }, ttl: false, lean: true, burst: false, queue: q, set_limit: false, flow_only: false }, 0));
+        }
+    }
+    // plain job flow with three keys, longer: several same-key jobs waiting while every worker is busy
+    for r in [Routing::Sticky, Routing::KeyPersistent, Routing::Queuer, Routing::RoundRobin] {
+        if !thorough && !(matches!(r, Routing::Sticky | Routing::KeyPersistent) || property == "C13") {
+            continue;
+        }
+        cfgs.push((Cfg { routing: r, discard: Discard::None, workers: 2, depth: if thorough { 8 } else { 6 }, ttl: false, lean: true, burst: false, queue: QueueKind::Default, set_limit: false, flow_only: true }, 0));
+    }
+    // the discard limit changes under way (UpdateSettings)
+    if property == "C15" || thorough {
+        for r in [Routing::Queuer, Routing::KeyPersistent] {
+            for d in [Discard::Newest(1), Discard::Oldest(1)] {
+                cfgs.push((Cfg { routing: r, discard: d, workers: 1, depth: if thorough { 6 } else { 5 }, ttl: false, lean: true, burst: false, queue: QueueKind::Default, set_limit: true, flow_only: false }, 0));
+            }
         }
     }
     // TTL expiry with time advancing
     for r in [Routing::Queuer, Routing::KeyPersistent] {
-        cfgs.push((Cfg { routing: r, discard: Discard::None, workers: 1, depth: if thorough { 5 } else { 4 }, ttl: true, lean: false, burst: false, queue: QueueKind::Default }, 0));
+        cfgs.push((Cfg { routing: r, discard: Discard::None, workers: 1, depth: if thorough { 5 } else { 4 }, ttl: true, lean: false, burst: false, queue: QueueKind::Default, set_limit: false, flow_only: false }, 0));
     }
     let mut units = Vec::new();
     for (cfg, bound) in cfgs {
